@@ -13,8 +13,8 @@ import (
 	"verifharness/gen"
 	"verifharness/mc"
 	"verifharness/props/c01"
-	"verifharness/sched"
 	"verifharness/props/reg"
+	"verifharness/sched"
 )
 
 func init() { reg.Register(&reg.Prop{ID: "C02", Run: Run, Replay: Replay}) }
